@@ -41,24 +41,65 @@ def loop_spec(eng, node):
     k = getattr(node, '_pyvc_loop', None)
     if k is None or eng.current is None:
         return None, k
+    if getattr(node, '_pyvc_loop_dup', False):
+        return eng.current.loops.get(k), '%d.dup' % k
     return eng.current.loops.get(k), k
 
 
-def number_loops(fn):
-    """Ordinal of every loop of the function in source order (contracts address loops by ordinal, never by line)."""
-    n = [0]
+def loop_sig(node):
+    """what a loop iterates over, as source text: used to find a contract's loops again when loops were added or removed"""
+    if isinstance(node, (ast.For, ast.AsyncFor)):
+        return 'for %s in %s' % (ast.unparse(node.target), ast.unparse(node.iter))
+    if isinstance(node, ast.While):
+        return 'while %s' % ast.unparse(node.test)
+    g = node.generators[0]
+    return 'comp %s in %s' % (ast.unparse(g.target), ast.unparse(g.iter))
+
+
+def number_loops(fn, recorded=None):
+    """Ordinal of every loop of the function in source order (contracts address loops by ordinal, never by line).
+    `recorded` = the loop signatures of the same function on the tree the contracts were written for
+    (expected/loop_sigs.json).  When the loops found differ from it, ordinals are the recorded ones of the loops that are
+    still there (longest common subsequence of the signatures); a loop that is new but iterates like a recorded one
+    borrows that loop's invariant under the label `<k>.dup` (its own obligations are never counted as violations);
+    any other new loop has no invariant."""
+    found = []
 
     def visit(node):
         for child in ast.iter_child_nodes(node):
-            if isinstance(child, (ast.For, ast.While, ast.AsyncFor)):
-                child._pyvc_loop = n[0]
-                n[0] += 1
-            if isinstance(child, (ast.ListComp, ast.DictComp, ast.GeneratorExp, ast.SetComp)):
-                child._pyvc_loop = n[0]
-                n[0] += 1
+            if isinstance(child, (ast.For, ast.While, ast.AsyncFor, ast.ListComp, ast.DictComp, ast.GeneratorExp, ast.SetComp)):
+                child._pyvc_loop = len(found)
+                found.append(child)
             visit(child)
     visit(fn)
-    return n[0]
+    if recorded is not None:
+        cur = [loop_sig(n) for n in found]
+        if cur != list(recorded):
+            a, b = list(recorded), cur
+            L = [[0] * (len(b) + 1) for _ in range(len(a) + 1)]
+            for i in range(len(a) - 1, -1, -1):
+                for j in range(len(b) - 1, -1, -1):
+                    L[i][j] = L[i + 1][j + 1] + 1 if a[i] == b[j] else max(L[i + 1][j], L[i][j + 1])
+            i = j = 0
+            match = {}
+            while i < len(a) and j < len(b):
+                if a[i] == b[j] and L[i][j] == L[i + 1][j + 1] + 1:
+                    match[j] = i
+                    i += 1
+                    j += 1
+                elif L[i + 1][j] >= L[i][j + 1]:
+                    i += 1
+                else:
+                    j += 1
+            for j, n in enumerate(found):
+                if j in match:
+                    n._pyvc_loop = match[j]
+                elif b[j] in a:
+                    n._pyvc_loop = max(k for k, s_ in enumerate(a) if s_ == b[j])
+                    n._pyvc_loop_dup = True
+                else:
+                    n._pyvc_loop = 1000 + j
+    return len(found)
 
 
 def havoc_value(eng, ctx, name, v, kinds):
@@ -367,6 +408,10 @@ def comprehension(eng, ctx, e):
         if isinstance(itv, Raised):
             yield c0, itv
             continue
+        from .externals import DictPairs
+        if isinstance(itv, DictPairs) and isinstance(e, ast.DictComp):
+            yield from _dictcomp_over_pairs(eng, c0, e, g, itv.t)
+            continue
         what, coll = _iterable(eng, c0, itv)
         if isinstance(e, (ast.ListComp, ast.GeneratorExp)) and what == 'seq':
             fl = coll.fixed_len()
@@ -405,6 +450,41 @@ def comprehension(eng, ctx, e):
             yield c0, c0.alloc('list', PySeq([View(arr, z3.IntVal(0), n)], 'list'))
             continue
         raise Unsupported('comprehension over %s' % what)
+
+
+def _dictcomp_over_pairs(eng, c0, e, g, t):
+    """{k: f(v) for k, v in d.items()} over an opaque dict d: a dict with the same keys in the same order whose value at
+    position j is f(dval(d)[j]).  The key expression must be the loop's own key variable and f must neither fork nor
+    change the state (a call under contract with a single outcome is fine)."""
+    if g.ifs or not (isinstance(g.target, ast.Tuple) and len(g.target.elts) == 2 and all(isinstance(x, ast.Name) for x in g.target.elts)
+                     and isinstance(e.key, ast.Name) and e.key.id == g.target.elts[0].id):
+        raise Unsupported('dict comprehension shape over the items of an opaque dict')
+    n = smt.dlen(t)
+    j = smt.fresh('dj', I)
+    c1 = c0.fork()
+    c1.assume(j >= 0, j < n)
+    c1.bind(g.target.elts[0].id, S(smt.dkey(t)[j]))
+    c1.bind(g.target.elts[1].id, S(smt.dval(t)[j]))
+    outs = list(eng.ev(e.value, c1))
+    if len(outs) != 1 or isinstance(outs[0][1], Raised):
+        raise Unsupported('comprehension body forks or raises over a symbolic sequence')
+    c2, val = outs[0]
+    if c2.st is not c1.st:
+        raise Unsupported('comprehension body with side effects over a symbolic sequence')
+    npc0 = len(c0.pc) + 2
+    extra = c2.pc[npc0:]
+    body_t = eng.to_v(c2, val)
+    extra = c2.pc[npc0:]
+    r = smt.fresh('dictc', V)
+    jj = z3.Int('dj_q')
+    kk = z3.Const('dj_k', V)
+    eng.ext.note('a dict comprehension over d.items() keeps the keys and their order: dkey/dlen/vhas of the result are those of d')
+    c0.assume(smt.kind(r) == smt.K_DICT, smt.dlen(r) == n, smt.vlen(r) == smt.vlen(t))
+    c0.assume(z3.ForAll([jj], z3.Implies(z3.And(jj >= 0, jj < n),
+                                         z3.substitute(z3.And(smt.dkey(r)[j] == smt.dkey(t)[j], smt.dval(r)[j] == body_t, *extra), (j, jj))),
+                        patterns=[smt.dval(r)[jj]]))
+    c0.assume(z3.ForAll([kk], smt.vhas(r, kk) == smt.vhas(t, kk), patterns=[smt.vhas(r, kk)]))
+    yield c0, S(r)
 
 
 def _comp_unroll(eng, e, ctx, items, acc):
